@@ -156,4 +156,49 @@ example : (asm demoArch ⟨"j", [.num 8]⟩).toOption = none := by decide
 example : (asm demoArch ⟨"i2r", [.reg 0, .inp 2]⟩).toOption = none := by decide
 example : demoArch.maxWord = 13 := by decide
 
+
+/-- whole programs (`Arch.Assembler`): comment and blank lines produce no word and take no address;
+    the k-th instruction line gives the k-th word, every word has exactly the architecture's width
+    and disassembles to its own line, and the program fits the code memory of the execution mode -/
+theorem asmProgram_spec (a : Arch) (lines : List (Option Instr)) (ws : List Bits)
+    (h : asmProgram a lines = .ok ws) :
+    ws.length = (lines.filterMap id).length ∧ ws.length ≤ codeCapacity a ∧
+    ∀ p ∈ (lines.filterMap id).zip ws,
+      asm a p.1 = .ok p.2 ∧ p.2.length = a.maxWord ∧ disasm a p.2 = some (normalise p.1) := by
+  unfold asmProgram at h
+  cases hm : (lines.filterMap id).mapM (asm a) with
+  | error e => simp [hm] at h
+  | ok ws' =>
+    simp only [hm] at h
+    split at h
+    · rename_i hcap
+      cases h
+      obtain ⟨hl, hall⟩ := mapM_ok (asm a) _ _ hm
+      exact ⟨hl, hcap, fun p hp => ⟨hall p hp, asm_width a p.1 p.2 (hall p hp), disasm_asm a p.1 p.2 (hall p hp)⟩⟩
+    · cases h
+
+/-- one failing line fails the whole program (no partial ROM) -/
+theorem asmProgram_fails (a : Arch) (lines : List (Option Instr)) (i : Instr) (e : AsmErr)
+    (hi : some i ∈ lines) (he : asm a i = .error e) : ∃ e', asmProgram a lines = .error e' := by
+  unfold asmProgram
+  cases hm : (lines.filterMap id).mapM (asm a) with
+  | error e' => exact ⟨e', rfl⟩
+  | ok ws =>
+    exfalso
+    obtain ⟨hl, hall⟩ := mapM_ok (asm a) _ _ hm
+    have hmem : i ∈ lines.filterMap id := List.mem_filterMap.mpr ⟨some i, hi, rfl⟩
+    obtain ⟨k, hk, rfl⟩ := List.getElem_of_mem hmem
+    have hk' : k < ws.length := by omega
+    have := hall ((lines.filterMap id)[k], ws[k]) (by
+      rw [List.mem_iff_getElem]
+      exact ⟨k, by simp; omega, by simp⟩)
+    simp [he] at this
+
+
+/-- a program with comment / blank lines: two words, at addresses 0 and 1 -/
+example : (asmProgram demoArch [none, some ⟨"rset", [.reg 3, .num 255]⟩, none, none, some ⟨"j", [.num 0]⟩, none]).toOption.map
+    (fun ws => (ws.length, ws.map List.length)) = some (2, [13, 13]) := by decide
+/-- nine instructions do not fit a ROM of 2^3 words -/
+example : (asmProgram demoArch (List.replicate 9 (some ⟨"j", [.num 0]⟩))).toOption = none := by decide
+
 end BMV.Props.C03
